@@ -72,8 +72,8 @@ theorem ply_spec_readback_vertex (c : Coding α) (f : SpecFile α) (hf : f.forma
 
 /-- POINT-CLOUD FILES, composed to the mesh: a reference-encoded binary file without face element — vertex properties
 in ANY permutation, any extra properties, any mix of uchar / int / float / double UNDER THE UNIFORM-TYPE GUARD ON RECOGNISED
-GROUPS (`hloc`: every built reader is `Located`; that is false e.g. for binary `red green blue uchar` + `alpha float`, where
-reader_vector4.go:73 forces the W type on the whole group — modelled by `forceTy`) — reads without error to the point
+GROUPS (`hloc`: every built reader is `Located`; since fix 8c2f8cb a differently-typed `alpha` next to `red green blue` is
+handled by the IgnorableW fallback, a mixed-type `x y z` group is still not claimed) — reads without error to the point
 cloud `0..n-1` whose attributes are the columns of the located readers.  `Located` says WHERE a reader reads and with
 which type, not under which NAME: to know which property an attribute came from combine with `ply_group_reader_located`
 (groups: the reader for names `ns` built on a header where `ns[k]` sits at position `idx[k]` is located at `idx`) and
